@@ -107,6 +107,15 @@ def generate(tier, seed, ctx):
                     if c.get('ref') == 'CELL':
                         c['ref'] = cells[0]
                     p.call(c)
+        # (a') the same bits handed over in every iterable form store_bits is annotated with, sized and unsized
+        for form in ('str', 'list', 'tuple', 'tvm', 'gen', 'map', 'iter', 'chain'):
+            for fill, n in ((0, 0), (0, 5), (0, 1023), (0, 1024), (1000, 23), (1000, 24), (1000, 100), (1023, 0), (1023, 1), (1, 1023)):
+                p = fresh()
+                b = builder_at(p, rng, fill, 0, [])
+                p.call({'op': 'store_bits', 'obj': b, 'form': form, 'bits': bitstr_of_list([rng.getrandbits(1) for _ in range(n)])})
+                if 'res' in p.records[-1].get('out', {}) and not p.dead:
+                    c = p.next
+                    p.call({'op': 'end_cell', 'obj': b, 'new': c})
         # (b) out-of-range values
         for w in (1, 2, 8, 64, 256, 257):
             for signed in (False, True):
@@ -182,6 +191,23 @@ def generate(tier, seed, ctx):
                         p.call({'op': 'begin_parse', 'obj': c, 'new': s})
                         if rng.random() < 0.3:
                             p.call(dict(rd, op='preload', obj=s))
+                        p.call(dict(rd, op='load', obj=s))
+        # over-reads far beyond what is left, at every kind of remaining length (also the full 1023 bits, also beyond the cell size)
+        for rem in (0, 1, 8, 511, 1016, 1022, 1023):
+            for ask in sorted({rem + 1, rem + 8, 1023, 1024, 1025, 2047, 4000, 1 << 16}):
+                if ask <= rem:
+                    continue
+                p = fresh()
+                c = leaf(p, rng, rem)
+                for rd in ({'what': 'bits', 'n': ask}, {'what': 'uint', 'w': ask}, {'what': 'int', 'w': ask},
+                           {'what': 'bytes', 'n': (ask + 7) // 8}, None):
+                    if rd is not None and 8 * rd.get('n', 0) <= rem and rd['what'] == 'bytes':
+                        continue
+                    s = p.next
+                    p.call({'op': 'begin_parse', 'obj': c, 'new': s})
+                    if rd is None:
+                        p.call({'op': 'skip_bits', 'obj': s, 'n': ask})
+                    else:
                         p.call(dict(rd, op='load', obj=s))
         # skip_bits and partly consumed slices
         for rem in (0, 1, 10):
